@@ -766,13 +766,14 @@ def generate_fns(repo):
 
 
 OUT_FNS = ["normalize_uri_element", "normalize_query_string_element", "normalize_uri_path_component", "canonicalize_uri_path",
-           "query_string_to_normalized_map"]
+           "query_string_to_normalized_map", "unescape_uri_encoding"]
 OUT_TYPES = {"normalize_uri_element": "Nat → Bytes → UriElement → Outcome Bytes", "normalize_query_string_element": "Nat → Bytes → Outcome Bytes",
              "normalize_uri_path_component": "Nat → Bytes → Outcome Bytes", "canonicalize_uri_path": "Nat → Bytes → Bool → Outcome Bytes",
-             "query_string_to_normalized_map": "Nat → Bytes → Outcome (List (Bytes × List Bytes))"}
+             "query_string_to_normalized_map": "Nat → Bytes → Outcome (List (Bytes × List Bytes))",
+             "unescape_uri_encoding": "Nat → Bytes → Outcome Bytes"}
 OUT_STUB = {"normalize_uri_element": "fun _ _ _ => .panic \"untranslated\"", "normalize_query_string_element": "fun _ _ => .panic \"untranslated\"",
             "normalize_uri_path_component": "fun _ _ => .panic \"untranslated\"", "canonicalize_uri_path": "fun _ _ _ => .panic \"untranslated\"",
-            "query_string_to_normalized_map": "fun _ _ => .panic \"untranslated\""}
+            "query_string_to_normalized_map": "fun _ _ => .panic \"untranslated\"", "unescape_uri_encoding": "fun _ _ => .panic \"untranslated\""}
 
 def read_enum(toks, name):
     """`enum Name { A, B, … }` (unit variants only) -> [A, B, …] or None."""
